@@ -228,7 +228,7 @@ LoopBoxes:
 		if err != nil {
 			return nil, err
 		}
-		boxType, boxSize := box.Type(), box.Size()
+		boxType := box.Type()
 		switch boxType {
 		case "mdat":
 			if f.isFragmented {
@@ -274,7 +274,7 @@ LoopBoxes:
 		}
 		f.AddChild(box, boxStartPos)
 		lastBoxType = boxType
-		boxStartPos += boxSize
+		boxStartPos = uint64(sr.GetPos()) // bytes consumed, not the recalculated box size
 	}
 	return f, nil
 }
